@@ -98,9 +98,17 @@ Definition w_model_ok (n I : Z) (ign : bool) (ops : list op) (panic_at : Z)
   | _ => (panic_at =? 0) && match reduces with [] => true | _ => false end
   end.
 
+(* Spec.agg written for evaluation: the recursive call is shared (Spec.agg mentions it twice, which makes
+   call-by-value evaluation exponential in the number of adds that fall into one bucket); Link.agg_x_eq *)
+Fixpoint agg_x (t0 iv : Z) (l : log) (j : Z) : Z * Z :=
+  match l with
+  | [] => (0, 0)
+  | (t, v) :: r => let a := agg_x t0 iv r j in if J t0 iv t =? j then (fst a + v, snd a + 1) else a
+  end.
+
 (* ---------- window: the property on the observations ---------- *)
 Definition exactb (n I : Z) (ign : bool) (t : Z) (l : log) (bs : list bucket) : bool :=
-  let vis := map (agg t0 I l) (visible n ign (J t0 I t)) in
+  let vis := map (agg_x t0 I l) (visible n ign (J t0 I t)) in
   (length bs <=? length vis)%nat && buckets_eqb (bs ++ repeat b0 (length vis - length bs)) vis.
 
 Fixpoint w_spec (n I : Z) (ign : bool) (pts : list (option (Z * log))) (reduces : list (list bucket)) : bool :=
@@ -170,9 +178,9 @@ Definition s_spec_step (n bd cpu_thr : Z) (p : sspec) (o : xsop) (row : srow) : 
   | XAllow cpu =>
       let over := cpu_thr <=? cpu in
       let recent := existsb (fun t => now - t <? C09_Gen.coolOfDuration) (p_over p) in
-      let cap := cap_f (fold_left maxp_step (map (agg t0 bd (p_pl p)) (visible n true (J t0 bd now))) 1
+      let cap := cap_f (fold_left maxp_step (map (agg_x t0 bd (p_pl p)) (visible n true (J t0 bd now))) 1
                         * (second / bd))
-                       (fold_left minrt_step (map (agg t0 bd (p_rl p)) (visible n true (J t0 bd now)))
+                       (fold_left minrt_step (map (agg_x t0 bd (p_rl p)) (visible n true (J t0 bd now)))
                                   C09_Gen.defaultMinRt) in
       let adm := r_adm row =? 1 in
       let ok :=
